@@ -151,6 +151,9 @@ def dfs_print(node: SectionNode, visited: set[SectionNode]) -> List[str]:
 def set_parents(listofnodes: List[SectionNode]) -> Dict[str, SectionNode]:
     """Set parents for all nodes."""
     node_ref: Dict[str, SectionNode] = {}
+    # titles that several sibling sections share: these are referenced by
+    # title and section parameter (also the third, fourth, ... of them).
+    shared: set[str] = set()
 
     def dfs_set(node: SectionNode, vis: set[SectionNode]) -> None:
         """DFS traverse the nodes."""
@@ -164,6 +167,9 @@ def set_parents(listofnodes: List[SectionNode]) -> Dict[str, SectionNode]:
                 par2 = f'{par}->{" ".join(node.settings)}'
                 node_ref[par1] = prev
                 node_ref[par2] = node
+                shared.add(par)
+            elif par in shared:
+                node_ref[f'{par}->{" ".join(node.settings)}'] = node
             else:
                 node_ref[par] = node
         vis.add(node)
